@@ -113,12 +113,13 @@ def _dynamical_coring_single_lagtime(trajs, lagtime, iterative):
 def _dynamical_coring_single_traj(traj, lagtime, iterative):
     """Apply dynamical coring."""
     # initialize matrix
-    core = _find_first_core(traj, lagtime)
-    if core == -1:
+    idx_core = _find_first_core_idx(traj, lagtime)
+    if idx_core == -1:
         raise LagtimeError(
             'For the given lagtime no core can be found. '
             'Try decreasing the lagtime.'
         )
+    core = traj[idx_core]
 
     cored_traj = traj.copy()
     for idx in range(len(traj)):  # noqa: WPS518
@@ -151,9 +152,18 @@ def _remains_in_core(idx, traj, lagtime, iterative):
 
 
 @numba.njit
-def _find_first_core(traj, lagtime):
-    """Find first core in trajectory."""
+def _find_first_core_idx(traj, lagtime):
+    """Find index of first core in trajectory, -1 if there is none."""
     for idx in range(len(traj)):  # noqa: WPS518
         if _remains_in_core(idx, traj, lagtime, iterative=False):
-            return traj[idx]
+            return idx
     return -1
+
+
+@numba.njit
+def _find_first_core(traj, lagtime):
+    """Find first core in trajectory."""
+    idx = _find_first_core_idx(traj, lagtime)
+    if idx == -1:
+        return -1
+    return traj[idx]
